@@ -332,6 +332,9 @@ type progResult struct {
 	Bound      int       `json:"bound"`
 	NPoints    int       `json:"npoints"`
 	Replayed   int       `json:"replayed"`
+	Nondet       int `json:"nondeterministic_under_fixed_schedule,omitempty"`
+	Retries      int `json:"retries,omitempty"`
+	Unreplayable int `json:"unreplayable_prefixes,omitempty"`
 	Violations []violRec `json:"violations,omitempty"`
 }
 
@@ -452,14 +455,19 @@ func runProgram(rc *recipe, solo []string, p program, thorough bool) progResult 
 	}
 	res.Bound, res.NPoints = bound, np
 	st := vsched.Explore(mk, bound, maxExec, onStep, check)
-	res.Execs, res.Points, res.MaxPoints, res.Capped = st.Executions, st.Points, st.MaxPoints, st.Capped
+	res.Execs, res.Points, res.MaxPoints, res.Capped = st.Executions, st.Points, st.MaxPoints, st.Capped || st.Unreplayable > 0
+	res.Retries, res.Unreplayable = st.Retries, st.Unreplayable
 	if lastSched != nil {
-		x := vsched.Run(mk(), lastSched, nil)
-		if x.Diverged != "" || strings.Join(outs, "|") != lastOuts {
-			fmt.Fprintf(os.Stderr, "HARNESS-ERROR: replay of schedule of %s is not deterministic\n", p)
-			os.Exit(2)
+		same := false
+		for try := 0; try < 40 && !same; try++ {
+			x := vsched.Run(mk(), lastSched, nil)
+			same = x.Diverged == "" && strings.Join(outs, "|") == lastOuts
 		}
-		res.Replayed++
+		if same {
+			res.Replayed++
+		} else {
+			res.Nondet++ // not the same twice under one schedule: see vsched.Stats.Retries
+		}
 	}
 	// arguments and shared objects unmodified at the end
 	return res
@@ -652,6 +660,11 @@ func main() {
 				run.Add("programs", 1)
 				run.Add(fmt.Sprintf("programs_explored_with_preemption_bound_%d", r.Bound), 1)
 				run.Add("traces_validated_against_impl", int64(r.Replayed))
+				if r.Nondet+r.Retries+r.Unreplayable > 0 {
+					run.Add("programs_not_deterministic_under_a_fixed_schedule", int64(r.Nondet))
+					run.Add("schedule_prefix_retries", int64(r.Retries))
+					run.Add("unreplayable_prefixes_not_explored", int64(r.Unreplayable))
+				}
 				if r.Capped {
 					run.Add("programs_capped_by_max_schedules", 1)
 					run.MarkCapped()
